@@ -2686,7 +2686,12 @@ class RootTransaction(Transaction):
 
     def _close_impl(self, try_deactivate: bool = False) -> None:
         try:
-            if self.is_active:
+            if self.is_active or self.connection._transaction is self:
+                # the second case is a transaction whose COMMIT failed: it
+                # was deactivated but stays on the connection "so that a
+                # rollback needs to occur"; the DBAPI connection may still
+                # be in that transaction (e.g. SQLite after a failed
+                # COMMIT), so the rollback has to actually be emitted
                 self._connection_rollback_impl()
 
             if self.connection._nested_transaction:
